@@ -373,3 +373,70 @@ def gamma11(tier, seed):
     for i, p in enumerate(pats):
         out.append({"id": f"g11/{i}/{p}", "doc": doc_of(p), "feature": "scan", "lemmas": L})
     return out
+
+
+# ------------------------------------------------------------------------------- C05
+D_OP = ["a", "ab", "b", "0x1", "0x10", "%r8", "%r8d", "[%rax+0x8]"]
+D_OP_QUICK = ["a", "ab", "0x1", "0x10", "%r8", "%r8d"]
+
+
+def ins_text(m, ops):
+    return m + "," + ",".join(ops)
+
+
+def gamma5(tier, seed):
+    out = []
+    D = D_OP_QUICK if tier == "quick" else D_OP
+    D2 = ["a", "0x1", "0x10"] if tier == "quick" else ["a", "ab", "0x1", "0x10", "%r8d"]
+    L = ("AEM", "EA", "NE")
+
+    def T(id_, pat, order, dom, feature, **kw):
+        t = {"id": "g5/" + id_, "doc": doc_of(pat), "feature": feature, "capture_order": order, "env_dom": dom, "lemmas": L}
+        t.update(kw)
+        out.append(t)
+
+    # ---- operand captures: one name
+    T("op/define_only", [{"mov": ["&x"]}, "ret"], ["&x"], {"&x": D}, "cap_operand_define")
+    T("op/define_second", [{"mov": ["a", "&x"]}, "ret"], ["&x"], {"&x": D}, "cap_operand_define")
+    T("op/later_last", [{"mov": ["&x"]}, {"add": ["&x"]}], ["&x"], {"&x": D}, "cap_operand_later_last", lemmas=("AEM", "EA", "NE", "TWIN"), twin=[{"mov": ["&x"]}, {"add": ["zzz"]}])
+    T("op/later_then_operand", [{"mov": ["&x"]}, {"add": ["&x", "b"]}, "ret"], ["&x"], {"&x": D}, "cap_operand_later_mid")
+    T("op/same_instruction", [{"mov": ["&x", "&x"]}, "ret"], ["&x"], {"&x": D}, "cap_operand_later_last")
+    T("op/later_first_of_two", [{"mov": ["&x"]}, {"add": ["&x", "&x"]}], ["&x"], {"&x": D}, "cap_operand_later_mid")
+    T("op/later_in_or", [{"mov": ["&x"]}, {"$or": [{"add": ["&x"]}, {"sub": ["b", "&x"]}]}, "ret"], ["&x"], {"&x": D2}, "cap_operand_later_last")
+    T("op/later_in_not", [{"mov": ["&x"]}, {"$not": [{"add": ["&x"]}]}, "ret"], ["&x"], {"&x": D2}, "cap_operand_later_in_not")
+    T("op/later_repeated", [{"mov": ["&x"]}, {"add": ["&x"], "times": {"min": 1, "max": 2}}, "ret"], ["&x"], {"&x": D2}, "cap_operand_later_last")
+    # ---- two and three names, every order of first use
+    T("op/two_names", [{"mov": ["&x", "&y"]}, {"add": ["&y", "&x"]}], ["&x", "&y"], {"&x": D2, "&y": D2}, "cap_operand_later_mid")
+    T("op/two_names_rev", [{"mov": ["&y"]}, {"add": ["&x"]}, {"sub": ["&x", "&y"]}], ["&y", "&x"], {"&x": D2, "&y": D2}, "cap_operand_later_mid")
+    if tier == "thorough":
+        D3 = ["a", "0x1", "0x10"]
+        T("op/three_names", [{"mov": ["&x", "&y"]}, {"add": ["&z", "&x"]}, {"sub": ["&y", "&z"]}], ["&x", "&y", "&z"], {"&x": D3, "&y": D3, "&z": D3}, "cap_operand_later_mid")
+        T("op/three_names_b", [{"mov": ["&z"]}, {"add": ["&y"]}, {"sub": ["&x"]}, {"xor": ["&x", "&y", "&z"]}], ["&z", "&y", "&x"], {"&x": D3, "&y": D3, "&z": D3}, "cap_operand_later_mid")
+    # ---- instruction captures
+    DI = [ins_text("mov", [""]), ins_text("mov", ["a"]), ins_text("mov", ["a", "b"]), ins_text("movl", ["a"]), ins_text("mov", ["ab"])]
+    T("ins/define_only", ["&i", "ret"], ["&i"], {"&i": DI}, "cap_instruction")
+    T("ins/twice", ["&i", "&i"], ["&i"], {"&i": DI}, "cap_instruction", lemmas=("AEM", "EA", "NE", "TWIN"), twin=["&i", "zzz"])
+    T("ins/separated", ["&i", "ret", "&i"], ["&i"], {"&i": DI}, "cap_instruction")
+    T("ins/two_names", ["&i", "&j", "&i", "&j"], ["&i", "&j"], {"&i": DI[:3], "&j": DI[:3]}, "cap_instruction")
+    T("ins/later_in_not", ["&i", {"$not": ["&i"]}, "ret"], ["&i"], {"&i": DI[:3]}, "cap_instruction")
+    T("ins/mixed", ["&i", {"add": ["&x"]}, "&i", {"sub": ["&x"]}], ["&i", "&x"], {"&i": DI[:3], "&x": D2}, "cap_mixed")
+    # ---- register families
+    fams = {"genreg": list("abcd"), "indreg": ["s", "d"], "stackreg": ["sp"], "basereg": ["bp"]}
+    widths = {"genreg": ["64", "32", "16", "8h", "8l"], "indreg": ["64", "32", "16", "8l"], "stackreg": ["64", "32", "16", "8l"], "basereg": ["64", "32", "16", "8l"]}
+    for fam, keys in fams.items():
+        nm = f"&{fam}"
+        ws = widths[fam]
+        for w1 in ws:
+            # first occurrence with a width suffix
+            T(f"reg/{fam}/first.{w1}", [{"mov": [f"{nm}.{w1}"]}, "ret"], [nm], {nm: keys}, "cap_register_first_width", domain="regs")
+            for w2 in ws:
+                T(f"reg/{fam}/{w1}->{w2}", [{"mov": [f"{nm}.{w1}"]}, {"add": [f"{nm}.{w2}"]}], [nm], {nm: keys}, "cap_register_later", domain="regs", lemmas=("AEM",))
+        T(f"reg/{fam}/first_nosuffix", [{"mov": [nm]}, "ret"], [nm], {nm: keys}, "cap_register_first_nosuffix", domain="regs")
+        T(f"reg/{fam}/as_in_tests", [{"add": [1, f"{nm}-1"]}, {"mov": [f"{nm}-1.16", f"{nm}-1.32"]}, "jmp"], [f"{nm}-1"], {f"{nm}-1": keys}, "cap_register_later_mid", domain="regs")
+    # documented upper-case suffixes
+    T("reg/genreg/upper_8H", [{"mov": ["&genreg.64"]}, {"add": ["&genreg.8H"]}], ["&genreg"], {"&genreg": list("abcd")}, "cap_register_upper_suffix", domain="regs", lemmas=("AEM",), pattern=[{"mov": ["&genreg.64"]}, {"add": ["&genreg.8h"]}])
+    T("reg/genreg/upper_8L", [{"mov": ["&genreg.64"]}, {"add": ["&genreg.8L"]}], ["&genreg"], {"&genreg": list("abcd")}, "cap_register_upper_suffix", domain="regs", lemmas=("AEM",), pattern=[{"mov": ["&genreg.64"]}, {"add": ["&genreg.8l"]}])
+    # register capture inside a $deref
+    T("reg/in_deref", [{"mov": ["&genreg.64"]}, {"add": [{"$deref": {"main_reg": "&genreg.64", "constant_offset": "0x8"}}]}], ["&genreg"], {"&genreg": list("abcd")}, "cap_register_in_deref", lemmas=("AEM",), domain="att_mem_regs")
+    T("reg/first_in_deref", [{"mov": [{"$deref": {"main_reg": "&genreg.64", "register_multiplier": "&indreg.64", "constant_multiplier": 4}}]}, {"add": ["&genreg.32", "&indreg.16"]}], ["&genreg", "&indreg"], {"&genreg": list("abcd"), "&indreg": ["s", "d"]}, "cap_register_in_deref", lemmas=("AEM",), domain="att_mem_regs")
+    return out
